@@ -53,7 +53,7 @@ fn script_of(cmd: &str, args: &[String]) -> String {
 /// run one operation in `root`; returns (output, listing for ls)
 pub fn run_op(base: &Context, root: &Path, cmd: &str, args: &[String]) -> Result<(Option<String>, Vec<String>), String> {
     std::env::set_current_dir(root).map_err(|e| e.to_string())?;
-    let (res, halted) = run_timed(&script_of(cmd, args), base.clone(), 5000);
+    let (res, halted) = run_timed(&script_of(cmd, args), base.clone(), 20000);
     if halted {
         return Err("hang".into());
     }
